@@ -21,11 +21,12 @@ Trace == ndJsonDeserialize(IOEnv.TRACE)
 
 VARIABLES l,      \* next trace line
           docs,   \* handle -> document
-          nbad    \* verdicts that are not "ok"/"skip" so far
+          nbad,   \* verdicts that are not "ok"/"skip" so far
+          snap    \* what the client held after the previous call: [held |-> Seq(Seq(id)), hash |-> document digest] or <<>>
 
-vars == <<l, docs, nbad>>
+vars == <<l, docs, nbad, snap>>
 
-Init == l = 1 /\ docs = <<>> /\ nbad = 0
+Init == l = 1 /\ docs = <<>> /\ nbad = 0 /\ snap = <<>>
 
 Has(r, f) == f \in DOMAIN r
 \* JSON gives [] for an empty object: normalise environments
@@ -65,6 +66,7 @@ LoadDoc ==
   /\ IsEvent("doc")
   /\ WellFormed(Trace[l].doc)
   /\ docs' = [h \in (DOMAIN docs) \cup {Trace[l].h} |-> IF h = Trace[l].h THEN Trace[l].doc ELSE docs[h]]
+  /\ snap' = <<>>
   /\ UNCHANGED nbad
 
 \* a document that is not well-formed is a recording error: the line is consumed and flagged
@@ -73,7 +75,15 @@ BadDoc ==
   /\ ~WellFormed(Trace[l].doc)
   /\ PrintT(ToJson([verdict |-> "bad-doc", l |-> l]))
   /\ nbad' = nbad + 1
-  /\ UNCHANGED docs
+  /\ UNCHANGED <<docs, snap>>
+
+\* C13 frame condition: everything the client held before the call (every node-set, element by
+\* element, and the document, by digest) is unchanged after it
+FrameOK(ev) == snap = <<>> \/ ~Has(ev, "held") \/
+   (/\ Len(ev.held) >= Len(snap.held)
+    /\ \A i \in 1..Len(snap.held) : ev.held[i] = snap.held[i]
+    /\ ev.dochash = snap.hash)
+SnapAfter(ev) == IF Has(ev, "held") THEN [held |-> ev.held, hash |-> ev.dochash] ELSE snap
 
 ExecRet ==
   /\ IsEvent("exec")
@@ -87,19 +97,34 @@ ExecRet ==
          known == bad0 /\ Affected(ev.e, OpenFx) /\
                   LET kv == Judge(d, ev.e, Eval(d, [ns |-> env.ns, vars |-> env.vars, funcs |-> env.funcs, fx |-> OpenFx], ev.e, Ctx(ev.ctx)), ev.res)
                   IN kv.val # "bad" /\ kv.ord # "bad"
-         bad == bad0 /\ ~known
-     IN /\ (bad => PrintT(ToJson([verdict |-> v, l |-> l, want |-> JVT(want)])))
+         bad == (bad0 /\ ~known) \/ ~FrameOK(ev)
+     IN /\ (bad => PrintT(ToJson([verdict |-> [val |-> IF known THEN "ok" ELSE v.val, ord |-> IF known THEN "ok" ELSE v.ord,
+                                               frame |-> IF FrameOK(ev) THEN "ok" ELSE "bad"], l |-> l, want |-> JVT(want)])))
         /\ (known => PrintT(ToJson([verdict |-> "known", l |-> l, fx |-> OpenFx])))
         /\ ((v.val = "skip") => PrintT(ToJson([verdict |-> "skip", l |-> l])))
         /\ nbad' = nbad + (IF bad THEN 1 ELSE 0)
+        /\ snap' = SnapAfter(ev)
+  /\ UNCHANGED docs
+
+\* the client takes a sub-slice of a node-set it holds (no library call): the new node-set is
+\* that sub-sequence and nothing else changes
+ResliceEv ==
+  /\ IsEvent("reslice")
+  /\ LET ev == Trace[l]
+         ok == /\ FrameOK(ev)
+               /\ Len(ev.held) = Len(snap.held) + 1
+               /\ ev.held[Len(ev.held)] = SubSeq(snap.held[ev.from], ev.lo + 1, ev.hi)
+     IN /\ (~ok => PrintT(ToJson([verdict |-> [val |-> "ok", ord |-> "ok", frame |-> "bad"], l |-> l, want |-> [t |-> "none"]])))
+        /\ nbad' = nbad + (IF ok THEN 0 ELSE 1)
+        /\ snap' = SnapAfter(ev)
   /\ UNCHANGED docs
 
 Done ==
   /\ l = Len(Trace) + 1
   /\ PrintT(ToJson([verdict |-> "done", lines |-> Len(Trace), bad |-> nbad]))
   /\ l' = l + 1
-  /\ UNCHANGED <<docs, nbad>>
+  /\ UNCHANGED <<docs, nbad, snap>>
 
-Next == LoadDoc \/ BadDoc \/ ExecRet \/ Done
+Next == LoadDoc \/ BadDoc \/ ExecRet \/ ResliceEv \/ Done
 TraceSpec == Init /\ [][Next]_vars
 =============================================================================
